@@ -316,7 +316,8 @@ def wantOf {β : Type} (s : Spec) (r : Option β) (f : β → String) (get : β 
 
 /-- judge the implementation's answer: `want` = expected result text and reference after the
 operation; `isQuery` = the state must not change at all -/
-def judge (st : St) (impl : Option (List String)) (want : Want) (isQuery : Bool) (resClause : String) : String × Option World :=
+def judge (st : St) (impl : Option (List String)) (want : Want) (isQuery : Bool) (resClause : String)
+    (copyJK : Option (Nat × Nat) := none) : String × Option World :=
   match impl with
   | none => ("-", none)
   | some t =>
@@ -330,6 +331,16 @@ def judge (st : St) (impl : Option (List String)) (want : Want) (isQuery : Bool)
           | some o => (o.check wi.g).map (fun c => s!"{c}")
           | none => none)
         let unchanged := match st.prev with | some p => p == wi | none => true
+        -- deleted items are forgotten in every map of every observer
+        let forgot := match st.prev with
+          | some p => (List.range wi.obs.length).all (fun k =>
+              match p.getObs k, wi.getObs k with
+              | some b, some a => Obs.forgotOk wi.g b a
+              | _, _ => true)
+          | none => true
+        let copyOk := match copyJK with
+          | some (j, k) => (match wi.getObs j, wi.getObs k with | some o, some c => Obs.sameRelations o c | _, _ => true)
+          | none => true
         let v :=
           match wi.g.check with
           | some c => "FAIL:consistent:" ++ c
@@ -338,7 +349,9 @@ def judge (st : St) (impl : Option (List String)) (want : Want) (isQuery : Bool)
             else match obsFail with
               | some c => "FAIL:assoc:" ++ c
               | none =>
-                if res != norm want.res then "FAIL:" ++ resClause
+                if !forgot then "FAIL:deleted_forgotten"
+                else if res != norm want.res then "FAIL:" ++ resClause
+                else if res.startsWith "ok indep" && !copyOk then "FAIL:copy_same_relations"
                 else if isQuery && !unchanged then "FAIL:query_changes_state"
                 else if (res == "exc:bpp" || res == "exc:std") && !unchanged then "FAIL:raises_unchanged"
                 else "ok"
@@ -372,7 +385,8 @@ def oquery (st : St) (impl : Option (List String)) (k : Nat) (ans : OView → St
     finish st (ans { v := viewG st.g, o := o }) st.w want (judge st impl want true "query_spec")
 
 /-- an observer-level mutator; `sr` = what the reference multigraph does for the graph part -/
-def omut (st : St) (impl : Option (List String)) (r : OOut String) (want : Want) : St × String × String :=
+def omut (st : St) (impl : Option (List String)) (r : OOut String) (want : Want)
+    (copyJK : Option (Nat × Nat) := none) : St × String × String :=
   let (res, w') := match r with
     | .ok s w' => (s, w')
     | .exc .bpp w' => ("exc:bpp", w')
@@ -380,7 +394,7 @@ def omut (st : St) (impl : Option (List String)) (r : OOut String) (want : Want)
     | .ub => ("ub", st.w)
   -- the reference only fixes the graph part; the expected result text is the model's
   let want' : Want := { res := if want.res == "exc:bpp" then res else res, spec := want.spec }
-  finish st res w' want' (judge st impl want' false "result_spec")
+  finish st res w' want' (judge st impl want' false "result_spec" copyJK)
 
 def _root_.Bpp.Graph.OOut.str {α : Type} (r : OOut α) (f : α → String) : OOut String :=
   match r with | .ok a w => .ok (f a) w | .exc k w => .exc k w | .ub => .ub
@@ -489,7 +503,7 @@ def step (st : St) (op : List String) (impl : Option (List String)) : St × Stri
   | ["o.setEdgeLinking", k, a, b, x] =>
     omut st impl ((w.localOp (nat k) (fun g o => World.setEdgeLinkingO g o (nat a) (nat b) (nat x))).str okS) keep
   | ["o.copy", j, k] =>
-    omut st impl ((w.copy (nat j) (nat k)).str (fun _ => "ok indep 1 shared 1")) keep
+    omut st impl ((w.copy (nat j) (nat k)).str (fun _ => "ok indep 1 shared 1")) keep (some (nat j, nat k))
   | ["o.drop", k] =>
     let k := nat k
     let r : OOut String := if k == 0 || (w.getObs k).isNone then .ub else .ok "ok" (w.drop k)
